@@ -34,18 +34,22 @@ TrDestroy == Is("destroy") /\ Step(Destroy(Line.n))
 TrFailed == Is("failed") /\ Step(files[Line.n].ex /\ files[Line.n].bad /\ UNCHANGED vars)
 
 Good == {n \in Present : ~files[n].bad}
+ListingOK(lst, total, hydfiles) ==
+  LET L == {lst[i] : i \in DOMAIN lst} IN
+  /\ {ScanName(files[n]) : n \in Good} \ {None} \subseteq L
+  /\ Cardinality(L \ Good) <= Cardinality(Present \ Good)
+  /\ Len(lst) = Cardinality(L)
+  /\ total = Len(lst)
+  /\ hydfiles = Cardinality(Present)
+
 \* reads = <<name written, what ReadSwampName returned>> for every file on disk; listing = the explorer's list
 TrObserve ==
   /\ Is("observe")
   /\ Step(/\ {Line.reads[i][1] : i \in DOMAIN Line.reads} = Present
           /\ \A i \in DOMAIN Line.reads :
                LET n == Line.reads[i][1] IN ~files[n].bad => Line.reads[i][2] = ReadName(files[n])
-          /\ LET L == {Line.listing[i] : i \in DOMAIN Line.listing} IN
-             /\ {ScanName(files[n]) : n \in Good} \ {None} \subseteq L
-             /\ Cardinality(L \ Good) <= Cardinality(Present \ Good)
-             /\ Len(Line.listing) = Cardinality(L)
-             /\ Line.total = Len(Line.listing)
-          /\ Line.hydfiles = Cardinality(Present)
+          /\ ListingOK(Line.listing, Line.total, Line.hydfiles)      \* a fresh explorer's first scan
+          /\ ListingOK(Line.listing2, Line.total2, Line.hydfiles2)   \* the long-lived explorer's rescan
           /\ Dev = {} => NameAgrees /\ ListingExact
           /\ UNCHANGED vars)
 
